@@ -41,6 +41,16 @@ M = [
  ('sdbm', 'harmless', 'lib/base/utility.cpp', 'hash = c + (hash << 6) + (hash << 16) - hash;', 'hash = (hash << 16) - hash + (hash << 6) + c;', 'summands reordered'),
  ('user_filters', 'semantic', 'lib/icinga/notification.cpp', '\t\tif (type != NotificationRecovery) {\n\t\t\tCheckable::Ptr checkable = GetCheckable();', '\t\tif (type != NotificationRecovery && type != NotificationAcknowledgement) {\n\t\t\tCheckable::Ptr checkable = GetCheckable();', 'acknowledgements bypass the state filter'),
  ('user_filters', 'unrecognised', 'lib/icinga/notification.cpp', '\t\tunsigned long ftype = type;\n\n\t\tLog(LogDebug, "Notification")\n\t\t\t<< "User \'"', '\t\tunsigned long ftype = type;\n\t\tstd::vector<int> seen;\n\t\tseen.push_back(ftype);\n\n\t\tLog(LogDebug, "Notification")\n\t\t\t<< "User \'"', 'construct outside the subset: must degrade, not alarm'),
+ ('pcr_attempt', 'semantic', 'lib/icinga/checkable-check.cpp', 'if (attempt >= GetMaxCheckAttempts()) {', 'if (attempt > GetMaxCheckAttempts()) {', '>= -> > : one more soft attempt'),
+ ('pcr_attempt', 'harmless', 'lib/icinga/checkable-check.cpp', 'if (old_stateType == StateTypeSoft && !IsStateOK(old_state)) {', 'bool old_ok = IsStateOK(old_state);\n\n\t\tif (!old_ok && old_stateType != StateTypeHard) {', 'hoisted local, reordered, == Soft as != Hard'),
+ ('pcr_hard_change', 'semantic', 'lib/icinga/checkable-check.cpp', 'if (stateChange && old_stateType == StateTypeHard && GetStateType() == StateTypeHard)\n\t\thardChange = true;', 'if (old_stateType == StateTypeHard && GetStateType() == StateTypeHard)\n\t\thardChange = true;', 'stateChange test dropped: every HARD->HARD result is a hard change'),
+ ('pcr_hard_change', 'harmless', 'lib/icinga/checkable-check.cpp', 'if (stateChange && old_stateType == StateTypeHard && GetStateType() == StateTypeHard)\n\t\thardChange = true;', 'if (stateChange && GetStateType() == StateTypeHard)\n\t\thardChange = true;', 'redundant test dropped (SOFT->HARD is a hard change anyway): intended as semantic, the proof shows it is equivalent'),
+ ('pcr_hard_change', 'unrecognised', 'lib/icinga/checkable-check.cpp', 'bool hardChange = (GetStateType() == StateTypeHard && old_stateType == StateTypeSoft);\n\n\tif (stateChange && old_stateType == StateTypeHard && GetStateType() == StateTypeHard)\n\t\thardChange = true;', 'bool nowHard = GetStateType() == StateTypeHard;\n\tbool hardChange = nowHard && (old_stateType == StateTypeSoft || (stateChange && old_stateType == StateTypeHard));', 'one expression instead of two steps, with a local declared before the region anchor: degrades'),
+ ('pcr_state_change', 'semantic', 'lib/icinga/checkable-check.cpp', 'stateChange = (Host::CalculateState(old_state) != Host::CalculateState(new_state));', 'stateChange = (old_state != new_state);', 'hosts compare raw states'),
+ ('trigger', 'semantic', 'lib/icinga/downtime.cpp', 'if (GetTriggerTime() == 0) {\n\t\tSetTriggerTime(triggerTime);\n\t}', 'SetTriggerTime(triggerTime);', 'trigger time overwritten on every trigger'),
+ ('trigger', 'harmless', 'lib/icinga/downtime.cpp', '\t\t\tif (!downtime)\n\t\t\t\tcontinue;\n\n\t\t\tdowntime->TriggerDowntime(triggerTime);', '\t\t\tif (downtime)\n\t\t\t\tdowntime->TriggerDowntime(triggerTime);', 'if instead of continue'),
+ ('is_child_of', 'semantic', 'lib/remote/zone.cpp', '\t\tif (azone == zone)\n\t\t\treturn true;', '\t\tif (azone == zone)\n\t\t\treturn azone != this;', 'a zone is no longer a child of itself'),
+ ('is_child_of', 'unrecognised', 'lib/remote/zone.cpp', '\tZone::Ptr azone = this;\n', '\tZone::Ptr azone = GetParent();\n', 'call outside the binding environment: degrades'),
 ]
 
 
